@@ -27,9 +27,9 @@ type roP struct {
 
 func roCases(prop, tier string, seed uint64) []Case {
 	r := newRand(subSeed(seed, prop, tier))
-	n, calls := 48, 40
+	n, calls := 800, 40
 	if tier == "thorough" {
-		n, calls = 700, 60
+		n, calls = 8000, 60
 	}
 	cfgs := someCfgs(r, 8)
 	var cases []Case
